@@ -47,7 +47,7 @@ func (k Keeper) LiquidateVaults(ctx sdk.Context, offsetCounterId uint64) error {
 	// Fetching all  vaults
 	totalVaults := k.vault.GetVaults(ctx)
 	// Getting length of all vaults
-	lengthOfVaults := int(k.vault.GetLengthOfVault(ctx))
+	lengthOfVaults := len(totalVaults)
 	// Creating start and end slice
 	start, end := types.GetSliceStartEndForLiquidations(lengthOfVaults, int(liquidationOffsetHolder.CurrentOffset), int(params.LiquidationBatchSize))
 	if start == end {
